@@ -234,6 +234,8 @@ def jobs(tier, mode="c07"):
                 cfgs.append((n, 2, M, 1.5, 1))
         cfgs += [(8, 2, 4, 1.5, 1), (8, 2, 5, 1.5, 1), (8, 2, 200, 1.5, 1)]
         cfgs += [(7, 2, 200, 2.0, 1), (6, 2, 200, 1.5, 2), (6, 3, 6, 1.5, 1), (8, 3, 200, 1.5, 1), (9, 3, 7, 2.0, 1)]
+        # smallest m=2 shape whose last interval of a length layer is clipped at n, i.e. shorter than its predecessor
+        cfgs += [(8, 2, 7, 1.5, 1)]
         gridargs = dict(nmax=40, ms=[1, 2, 3, 5], gfs=[1.5, 2.0])
     else:
         cfgs = []
@@ -250,6 +252,8 @@ def jobs(tier, mode="c07"):
                     for gf in (1.5, 2.0):
                         cfgs.append((n, m, M, gf, 1))
         cfgs += [(8, 2, 200, 1.5, 2), (9, 2, 200, 2.0, 1)]
+        # shapes whose last interval of a length layer is clipped at n (shorter than its predecessor)
+        cfgs += [(6, 1, 5, 2.0, 1), (8, 2, 7, 1.5, 1), (9, 2, 8, 1.5, 1), (10, 2, 9, 2.0, 1), (11, 3, 10, 1.5, 1)]
         gridargs = dict(nmax=120, ms=[1, 2, 3, 5, 8], gfs=[1.1, 1.5, 2.0])
     seen = set()
     for (n, m, M, gf, p) in cfgs:
